@@ -1,9 +1,11 @@
 package limsim
 
 import (
+	"context"
 	"errors"
 	"fmt"
 	"net/http"
+	"runtime"
 	"testing"
 	"time"
 
@@ -35,6 +37,7 @@ type c04req struct {
 	done     bool
 	panics   bool
 	status   int
+	cancel   func() // ends the request's context (the client has gone away); the handler goes on until it returns
 }
 
 type c04in struct {
@@ -151,6 +154,9 @@ func c04core(r *simkit.Run, minSources int, forceFine bool) {
 		q := &c04req{id: len(reqs), src: src, rec: simkit.NewRecorder()}
 		reqs = append(reqs, q)
 		req := newRequest(q, srcName(src))
+		ctx, cancel := context.WithCancel(req.Context())
+		q.cancel = cancel
+		req = req.WithContext(ctx)
 		q.task = sim.Spawn(fmt.Sprintf("req%d(s%d)", q.id, src), func() {
 			q.invoke = sim.Seq
 			defer func() { q.done = true; q.doneSeq = sim.Seq; q.status = q.rec.Status }()
@@ -215,9 +221,19 @@ func c04core(r *simkit.Run, minSources int, forceFine bool) {
 			break
 		}
 		if len(pk) > 0 {
-			kinds = append(kinds, "rewrap")
+			kinds = append(kinds, "rewrap", "client-gone")
 		}
 		switch rapid.SampledFrom(kinds).Draw(rt, "op") {
+		case "client-gone":
+			// the client of a request that is inside the handler goes away (its context ends); the handler is still
+			// running, so the request still counts until it returns
+			q := pk[rapid.IntRange(0, len(pk)-1).Draw(rt, "whose-client")]
+			if q.cancel != nil {
+				q.cancel()
+				runtime.Gosched() // anything the limiter hooked onto the context runs now rather than at a random later point
+				time.Sleep(50 * time.Microsecond)
+			}
+			r.Fault("client-gone-while-in-handler")
 		case "rewrap":
 			// the chain is re-assembled around the limiter while requests are inside: the accounting is unaffected
 			cl.Wrap(handler)
